@@ -393,6 +393,9 @@ def _native_battery(out, scenario, vectors, what):
     # "a message is left unanswered only if it is a notification" - and then really unanswered: the WebSocket reply decision (shared with C02)
     from . import C02 as _c02
     out.append(_c02._ws_reply_decision(R.bodies("server")))
+    # "the same response object over HTTP and over WebSocket": every route builds its RpcService with the one configured response limit (shared with C08)
+    from . import C08 as _c08
+    out += _c08.response_limit_sites(R.bodies("server"))
     # "the handler's result for exactly those params": positional params reach the handler through ParamsSequence (C16 decides the decoder in full;
     # here the part a reply depends on: an acceptable element is never refused and the j-th read is the j-th element, whatever the spacing of the text)
     from . import C16 as _c16
